@@ -130,7 +130,7 @@ where
         Self {
             size,
             taxa: Vec::with_capacity(size),
-            matrix: vec![zero(); size * (size - 1) / 2],
+            matrix: vec![zero(); size * size.saturating_sub(1) / 2],
             zero: zero(),
         }
     }
@@ -142,7 +142,7 @@ where
     pub(crate) fn from_precomputed(taxa: Vec<String>, matrix: Vec<T>) -> Result<Self, MatrixError> {
         // Check that taxa and distances are coherent
         let n = taxa.len();
-        let n_pairs = (n * (n - 1)) / 2;
+        let n_pairs = (n * n.saturating_sub(1)) / 2;
         if matrix.len() != n_pairs {
             return Err(MatrixError::SizeError {
                 size: {
@@ -295,7 +295,7 @@ where
         let name = fields.next().ok_or(PhylipParseError::EmptyRow(row_num))?;
         let dists = fields
             .map(|d| d.parse().map_err(|_| PhylipParseError::DistParseError))
-            .take(if tril { row_num } else { size })
+            .take(if tril { row_num } else { size.saturating_add(1) })
             .collect::<Result<Vec<_>, _>>()?;
 
         Ok((name.to_string(), dists))
@@ -313,7 +313,7 @@ where
             .map_err(PhylipParseError::SizeParseError)?;
 
         let mut taxa = vec![];
-        let mut max_v = Vec::with_capacity(size * (size - 1) / 2);
+        let mut max_v = Vec::with_capacity(size * size.saturating_sub(1) / 2);
 
         for (i, line) in lines.enumerate() {
             let (name, dists) = Self::read_phylip_row(line, i, size, true)?;
@@ -347,6 +347,10 @@ where
         let mut rows = vec![];
 
         for (i, line) in lines.enumerate() {
+            if i >= size {
+                return Err(PhylipParseError::SizeAndRowsMismatch(i + 1, size));
+            }
+
             let (name, dists) = Self::read_phylip_row(line, i, size, false)?;
 
             if square && dists.len() != size || !square && dists.len() != i {
